@@ -664,7 +664,7 @@ func dumpFunctions(repo string) ([]string, error) {
 			for _, d := range f.Decls {
 				if fd, ok := d.(*ast.FuncDecl); ok {
 					if fn, ok := pkg.TypesInfo.Defs[fd.Name].(*types.Func); ok {
-						out = append(out, rel+"."+declName(fn))
+						out = append(out, rel+"."+declName(fn)+"\t"+sigString(fn))
 					}
 				}
 			}
@@ -1140,4 +1140,70 @@ func pureExpr(e ast.Expr) bool {
 		return x.Op != token.ARROW && pureExpr(x.X)
 	}
 	return false
+}
+
+// sigString: the signature of fn without parameter names, package paths in
+// full (used to recognise a renamed function).
+func sigString(fn *types.Func) string {
+	sig := fn.Type().(*types.Signature)
+	q := func(p *types.Package) string { return p.Path() }
+	var ps, rs []string
+	for i := 0; i < sig.Params().Len(); i++ {
+		t := types.TypeString(sig.Params().At(i).Type(), q)
+		if sig.Variadic() && i == sig.Params().Len()-1 {
+			t = "..." + strings.TrimPrefix(t, "[]")
+		}
+		ps = append(ps, t)
+	}
+	for i := 0; i < sig.Results().Len(); i++ {
+		rs = append(rs, types.TypeString(sig.Results().At(i).Type(), q))
+	}
+	return "(" + strings.Join(ps, ",") + ")(" + strings.Join(rs, ",") + ")"
+}
+
+// recvPart: "(*T)" / "(T)" / "" of a declName key "rel.(*T).m" -> used to match renames within one receiver type.
+func recvPart(key string) string {
+	if i := strings.Index(key, ".("); i >= 0 {
+		if j := strings.Index(key[i:], ")."); j >= 0 {
+			return key[:i+j+2]
+		}
+	}
+	if i := strings.LastIndex(key, "."); i >= 0 {
+		return key[:i+1]
+	}
+	return key
+}
+
+// renamedFunctions matches reference functions that no longer exist with new
+// functions of the same package, receiver type and signature; only unambiguous
+// matches count. It returns new key -> old key.
+func renamedFunctions(ref map[string]string, present map[string]string) map[string]string {
+	type grp struct{ olds, news []string }
+	groups := map[string]*grp{}
+	for k, sig := range ref {
+		if _, ok := present[k]; ok {
+			continue
+		}
+		g := recvPart(k) + "|" + sig
+		if groups[g] == nil {
+			groups[g] = &grp{}
+		}
+		groups[g].olds = append(groups[g].olds, k)
+	}
+	for k, sig := range present {
+		if _, ok := ref[k]; ok {
+			continue
+		}
+		g := recvPart(k) + "|" + sig
+		if groups[g] != nil {
+			groups[g].news = append(groups[g].news, k)
+		}
+	}
+	out := map[string]string{}
+	for _, g := range groups {
+		if len(g.olds) == 1 && len(g.news) == 1 {
+			out[g.news[0]] = g.olds[0]
+		}
+	}
+	return out
 }
